@@ -419,6 +419,16 @@ let hufweights_line line =
      | M.RErr _ -> "err" | M.RPanic _ -> "panic")
   | _ -> "bad"
 
+(* hufcounts <c0,c1,...> : the model of build_from_counts: weights by rank, then the canonical codes *)
+let hufcounts_line line =
+  let counts = List.map z_of_string (split_on ',' (String.trim line)) in
+  match M.weights_from_counts counts, M.build_from_counts counts with
+  | M.ROk ws, M.ROk codes ->
+    Printf.sprintf "ok %s | %s" (String.concat "," (List.map z_to_string ws))
+      (String.concat " " (List.map (fun (c, n) -> z_to_string c ^ "," ^ z_to_string n) codes))
+  | M.RPanic _, _ | _, M.RPanic _ -> "panic"
+  | _ -> "err"
+
 let () =
   let cmd = if Array.length Sys.argv > 1 then Sys.argv.(1) else "" in
   let f = match cmd with
@@ -438,6 +448,7 @@ let () =
     | "hufdec" -> hufdec_line
     | "fsedesc" -> fsedesc_line
     | "hufweights" -> hufweights_line
+    | "hufcounts" -> hufcounts_line
     | "bits64" -> bits_line 0
     | "bitsabs" -> bits_line 1
     | _ -> prerr_endline "usage: driver <prog|fse|huf> < cases"; exit 2 in
